@@ -131,3 +131,37 @@ def binding_demo(ctx, scen="sync", blocks=24):
         if accepted:
             raise Infra("binding demonstration failed: %s trace was accepted by Trace_BFT" % name)
     ctx.cov["binding_demo"] = "corrupted-field and deleted-event variants of a recorded trace were rejected"
+
+
+def replay_schedules(ctx, num, depth=30):
+    """model -> implementation: behaviours of BFT.tla (who proposes on what, who receives what when, who restarts;
+    Byzantine equivocation) sampled by TLC's simulator are executed on the real simulator; the recorded traces are
+    judged by Trace_BFT.tla and the COM bits / final finalized checkpoints predicted by the design model are compared."""
+    r = ctx.tlc("bft", "MCBFTSim", cfg="MCBFTSim.cfg", workers=1, simulate="num=%d" % num, depth=depth, timeout=900,
+                label="behaviour export for replay", count=False)
+    if r.invariant or r.error or r.timeout:
+        raise Infra("behaviour export failed: %s\n%s" % (r.invariant or r.error or "timeout", r.out[-1500:]))
+    files = [f for f in os.listdir(r.workdir) if f.startswith("beh_")]
+    if not files:
+        raise Infra("TLC exported no behaviour")
+    binp = ctx.build("bftsim")
+    out = ctx.tmp("replay")
+    rc, o = ctx.run([binp, "-replay", r.workdir, "-out", out, "-seed", str(ctx.seed)], timeout=1800)
+    if rc == 3:
+        raise Infra("bftsim harness error: " + o[-1500:])
+    if rc != 0:
+        if rc is not None and "panic:" in o:
+            rp = ctx.save_replay("panic-replay-%d.txt" % ctx.seed, o[-20000:])
+            ctx.report("panic:replay", "real code panicked while replaying a TLC schedule: %s" % o.strip().splitlines()[:2], rp)
+            return []
+        raise Infra("bftsim -replay failed rc=%s: %s" % (rc, o[-2000:]))
+    summary = json.loads(o.strip().splitlines()[-1])
+    disagree = [n for n in summary.get("notes", []) if "SPEC-DISAGREE" in n]
+    if disagree:
+        raise Infra("BFT.tla and the real engine (as accepted by Trace_BFT.tla) disagree - specification drift: %s" % disagree[:3])
+    stats = json.load(open(os.path.join(out, "runs.json")))
+    events = read_ndjson(os.path.join(out, "trace.ndjson"))
+    validate_events(ctx, events, stats, "tlc-schedules", dict(replay="MCBFTSim", num=num, depth=depth, seed=ctx.seed))
+    ctx.cov["tlc_schedules_replayed"] = len(files)
+    ctx.cov["tlc_schedules_cut_short_by_score_order"] = len([n for n in summary.get("notes", []) if "behaviour cut" in n])
+    return stats
